@@ -89,7 +89,18 @@ func c29SkGen(r *vhRng) string {
 		copy(sig[32:64], c29Pad32(s))
 		sig[64] ^= 1
 	case 6: // recovery id variants
-		sig[64] = byte([]int{0, 1, 2, 3, 4, 26, 27, 28, 29, 30, 31, 255}[r.Intn(12)])
+		switch r.Intn(3) {
+		case 0:
+			sig[64] = byte([]int{0, 1, 2, 3, 4, 26, 27, 28, 29, 30, 31, 255}[r.Intn(12)])
+		case 1: // the honest id (or any id 0..3) plus a multiple of 27, over the whole byte range
+			id := int(sig[64])
+			if r.Bool() {
+				id = r.Intn(4)
+			}
+			sig[64] = byte(id + 27*r.Intn(10))
+		default:
+			sig[64] = byte(r.Intn(256))
+		}
 	case 7: // r or s out of range / zero
 		switch r.Intn(4) {
 		case 0:
